@@ -744,12 +744,21 @@ theorem bitstoreFromToken_valid (q : Req) (len : Option Nat) (hv : Valid q len =
     simp only [dtOf_bitlength_some]
     rw [if_neg (by rw [encode_length' q (some m) hv]; simp)]
 
+theorem initWith_valid (q : Req) (len : Option Nat) (hv : Valid q len = true) :
+    initWith (dtOf q len) q = .ok (encode q (resultLen q len)) := by
+  unfold initWith
+  rw [dtSet_valid q len hv]
+  simp only
+  cases h : (dtOf q len).bitlength with
+  | none => rfl
+  | some n => simp only; rw [if_neg (by rw [check_len q len hv n h]; simp)]
+
 theorem generic_kw_valid (q : Req) (len : Option Nat) (hv : Valid q len = true) :
     (match getDtype q.kind len with
       | .error e => Except.error e
-      | .ok d => dtSet d q none) = .ok (encode q (resultLen q len)) := by
+      | .ok d => initWith d q) = .ok (encode q (resultLen q len)) := by
   rw [getDtype_valid q len hv]
-  exact dtSet_valid q len hv none
+  exact initWith_valid q len hv
 
 theorem viaKeyword_valid (q : Req) (len : Option Nat) (hv : Valid q len = true) :
     viaKeyword q len = .ok (encode q (resultLen q len)) := by
@@ -1037,46 +1046,6 @@ theorem getDtype_some (k : Kind) (m : Nat) (d : Dt) (h : getDtype k (some m) = .
   · cases h; rename_i hc; exact ⟨rfl, hc⟩
   · cases h
 
-/-- For the dtypes whose `set_fn` takes its length from the value, that length must be the requested one. -/
-def NatOK (q : Req) (n : Nat) : Prop :=
-  match q with
-  | .str _ _ | .bits _ | .bytes _ => naturalLen q = some n
-  | _ => True
-
-theorem dtSet_length (q : Req) (m : Nat) (cur : Option Nat) (b : Bits)
-    (hc : q.kind.allowed.contains m = true) (hnat : NatOK q (m * q.kind.multiplier))
-    (h : dtSet ⟨q.kind, some m⟩ q cur = .ok b) : b.length = m * q.kind.multiplier := by
-  cases q with
-  | int k v =>
-    simp only [dtSet, Req.kind, kind_needs_int, if_true, Dt.bitlength, Option.map_some, kind_mult_int, Nat.mul_one, rawSet] at h ⊢
-    exact setInt_length k v m cur b hc h
-  | flt k p =>
-    simp only [dtSet, Req.kind, kind_needs_flt, if_true, Dt.bitlength, Option.map_some, kind_mult_flt, Nat.mul_one, rawSet] at h ⊢
-    exact setFlt_length k p m cur b h
-  | str k s =>
-    simp only [dtSet, Req.kind, kind_needs_str, if_true, rawSet] at h
-    rw [set_eq] at h
-    have := digitsToBits_length _ _ _ _ h
-    simp only [NatOK, naturalLen, Option.some.injEq] at hnat
-    rw [this, hnat]
-  | bool a =>
-    simp only [dtSet, Req.kind, Kind.setNeedsLength, rawSet] at h
-    have h1 : m = 1 := by simpa [Req.kind, Kind.allowed, Allowed.contains] using hc
-    subst h1
-    simp [Req.kind, Kind.multiplier, setBool_length a b (by simpa using h)]
-  | bytes d =>
-    simp only [dtSet, Req.kind, Kind.setNeedsLength, if_true, rawSet] at h
-    cases h
-    simp only [NatOK, naturalLen, Option.some.injEq] at hnat
-    rw [fromBytes_length]; exact hnat
-  | bits x =>
-    simp only [dtSet, Req.kind, Kind.setNeedsLength, if_true, rawSet] at h
-    cases h
-    simpa [NatOK, naturalLen] using hnat
-  | pad =>
-    simp only [dtSet, Req.kind, Kind.setNeedsLength, if_true, rawSet, Dt.bitlength, Option.map_some, Kind.multiplier] at h ⊢
-    cases h; simp
-
 theorem tokenValue_kind (q q' : Req) (h : tokenValue q = .ok q') : q'.kind = q.kind := by
   cases q with
   | bool a => cases a <;> cases h <;> rfl
@@ -1124,41 +1093,31 @@ theorem ite_ne_ok (a b : Option Nat) (x y : Bits)
   · rw [if_neg (by simpa using hab)] at h; cases h; exact ⟨hab, rfl⟩
   · rw [if_pos hab] at h; cases h
 
-theorem region_natOK (r : Route) (q : Req) (m : Nat) (hr : r = .kw ∨ r = .nameLen)
-    (hb : r = .kw → ∀ d, q ≠ .bytes d)
-    (hreg : kw_length_ignored r q (some m) = false) : NatOK q (m * q.kind.multiplier) := by
-  cases q with
-  | str k s =>
-    rcases hr with rfl | rfl <;>
-      (have := hreg; simp [kw_length_ignored, bitLen, naturalLen, Req.kind] at this; simp [NatOK, naturalLen, Req.kind, this])
-  | bits b =>
-    rcases hr with rfl | rfl <;>
-      (have := hreg; simp [kw_length_ignored, bitLen, naturalLen, Req.kind] at this; simp [NatOK, naturalLen, Req.kind, this])
-  | bytes d =>
-    rcases hr with rfl | rfl
-    · exact absurd rfl (hb rfl d)
-    · have := hreg
-      simp [kw_length_ignored, bitLen, naturalLen, Req.kind] at this
-      simp [NatOK, naturalLen, Req.kind, this]
-  | int k v => trivial
-  | flt k p => trivial
-  | bool a => trivial
-  | pad => trivial
+theorem initWith_length (d : Dt) (q : Req) (n : Nat) (b : Bits) (hd : d.bitlength = some n)
+    (h : initWith d q = .ok b) : b.length = n := by
+  unfold initWith at h
+  cases hs : dtSet d q none with
+  | error e => rw [hs] at h; cases h
+  | ok x =>
+    rw [hs, hd] at h
+    simp only at h
+    split at h
+    · cases h
+    · cases h; rename_i hx; simpa using hx
 
-theorem generic_kw_length (q : Req) (m : Nat) (b : Bits) (hnat : NatOK q (m * q.kind.multiplier))
+theorem generic_kw_length (q : Req) (m : Nat) (b : Bits)
     (h : (match getDtype q.kind (some m) with
       | .error e => Except.error e
-      | .ok d => dtSet d q none) = .ok b) : b.length = m * q.kind.multiplier := by
+      | .ok d => initWith d q) = .ok b) : b.length = m * q.kind.multiplier := by
   cases hg : getDtype q.kind (some m) with
   | error e => rw [hg] at h; cases h
   | ok d =>
     rw [hg] at h
-    obtain ⟨rfl, hc⟩ := getDtype_some _ _ _ hg
-    exact dtSet_length q m none b hc hnat h
+    obtain ⟨rfl, _⟩ := getDtype_some _ _ _ hg
+    exact initWith_length _ _ _ _ rfl h
 
-theorem route_ok_length_partial' (r : Route) (q : Req) (len : Option Nat) (n : Nat) (b : Bits)
-    (hr : r ≠ .prop) (hreg : kw_length_ignored r q len = false)
-    (hn : bitLen q len = some n) (h : route r q len = .ok b) : b.length = n := by
+theorem route_ok_length' (r : Route) (q : Req) (len : Option Nat) (n : Nat) (b : Bits)
+    (hr : r ≠ .prop) (hn : bitLen q len = some n) (h : route r q len = .ok b) : b.length = n := by
   cases len with
   | none => simp [bitLen] at hn
   | some m =>
@@ -1176,14 +1135,14 @@ theorem route_ok_length_partial' (r : Route) (q : Req) (len : Option Nat) (n : N
           rename_i hle
           rw [List.length_take, fromBytes_length]
           simp only [Req.kind, Kind.multiplier]; omega
-      | int k v => exact generic_kw_length _ m b (region_natOK .kw _ m (Or.inl rfl) (fun _ d => by simp) hreg) h
-      | str k s => exact generic_kw_length _ m b (region_natOK .kw _ m (Or.inl rfl) (fun _ d => by simp) hreg) h
-      | flt k p => exact generic_kw_length _ m b (region_natOK .kw _ m (Or.inl rfl) (fun _ d => by simp) hreg) h
-      | bool a => exact generic_kw_length _ m b (region_natOK .kw _ m (Or.inl rfl) (fun _ d => by simp) hreg) h
-      | bits x => exact generic_kw_length _ m b (region_natOK .kw _ m (Or.inl rfl) (fun _ d => by simp) hreg) h
-      | pad => exact generic_kw_length _ m b (region_natOK .kw _ m (Or.inl rfl) (fun _ d => by simp) hreg) h
+      | int k v => exact generic_kw_length _ m b h
+      | str k s => exact generic_kw_length _ m b h
+      | flt k p => exact generic_kw_length _ m b h
+      | bool a => exact generic_kw_length _ m b h
+      | bits x => exact generic_kw_length _ m b h
+      | pad => exact generic_kw_length _ m b h
     | nameLen =>
-      exact generic_kw_length q m b (region_natOK .nameLen q m (Or.inr rfl) (fun h => by cases h) hreg) h
+      exact generic_kw_length q m b h
     | propLen =>
       simp only [route, viaPropLen] at h
       cases hg : getDtype q.kind (some m) with
